@@ -280,6 +280,23 @@ def clientTokens (cl : ConcClient) : List String :=
     | .req r => tokenOfJson r.parameters
     | .bad => none
 
+/-- a peer whose requests are all well formed and answered by the library itself (built-in interface, unknown
+    interface, no dot) gets exactly one reply per non-oneway request — judged without the implementation's own
+    in-memory reference run, which a change in `handle()` moves along -/
+def libraryOnlyCount (svc : Service) (cl : ConcClient) : Option Nat :=
+  let fs := (frames cl.chunks.flatten).1.map (decOf cl.dec)
+  let complete := cl.chunks.flatten.getLast? == some 0
+  let ok := fs.all fun f => match f with
+    | .req r =>
+      !illTypedBuiltin r &&
+      (match ifaceOf r.method with
+       | none => true
+       | some i => i == svcName || (svc.lookup i).isNone)
+    | .bad => false
+  if ok && complete && (cl.kind == "half" || cl.kind == "slow") then
+    some (fs.filter fun f => match f with | .req r => !isOneway r | .bad => false).length
+  else none
+
 def concPred (c : ConcCase) (obs : List Sx) : Verdict :=
   let toks := c.clients.map clientTokens
   let idx := List.range c.clients.length
@@ -290,7 +307,11 @@ def concPred (c : ConcCase) (obs : List Sx) : Verdict :=
       | none => some "unparsable-connection-observation"
       | some co =>
         let others := (idx.filter (· != i)).flatMap fun j => toks.getD j []
-        P_C13_conn cl.kind others co
+        match libraryOnlyCount c.svc cl with
+        | some n =>
+          if co.out.length != n then some "peer-did-not-get-one-reply-per-request-the-library-answers-itself"
+          else P_C13_conn cl.kind others co
+        | none => P_C13_conn cl.kind others co
     | _, _ => some "missing-connection-observation"
 
 def parseTimingObs : Sx → Option TimingObs
